@@ -65,7 +65,10 @@ def check_module(spec, h):
     journals = {}
     for opt in (False, True):
         try:
-            top, info = modgraph.build(shape, idx, mode, share)
+            if shape == 'nested':
+                top, info = modgraph.nested_module(idx[0], with_info=True)
+            else:
+                top, info = modgraph.build(shape, idx, mode, share)
             files = pyrun.serialize_real(top, opt)
         except Exception as ex:  # noqa: BLE001
             viols.append((dict(desc, kind='serialize_raises'), f'{desc}: serialize(optimize={opt}) raised {type(ex).__name__}: {str(ex)[:150]}'))
@@ -96,7 +99,32 @@ def check_module(spec, h):
         journals[opt] = [(k, rm.show(t)) for k, t in j]
     if journals.get(False) != journals.get(True):
         viols.append((dict(desc, kind='optimise_changes_journal'), f'{desc}: journal differs between optimise off and on'))
-    return viols, 2
+    n_mod = 2
+    if shape in ('chain', 'diamond') and mode == 'all':
+        # histories on the module objects: serialise, THEN declare one more axiom in one node, serialise again --
+        # the second set of files must publish the theory as declared at that moment
+        extra_ax = bridge.P.App(bridge.P.Symbol('late'), bridge.P.Symbol('a'))
+        for target in [n for n, _, _ in modgraph.SHAPES[shape]]:
+            for opt in (False, True):
+                try:
+                    top, info = modgraph.build(shape, idx, mode, share)
+                    pyrun.serialize_real(top, opt)
+                    info['nodes'][target].add_axiom(extra_ax)
+                    files = pyrun.serialize_real(top, opt)
+                except Exception as ex:  # noqa: BLE001
+                    viols.append((dict(desc, kind='reserialize_raises', node=target), f'{desc}: serialise, add an axiom to {target}, serialise again (optimize={opt}) raised {type(ex).__name__}: {str(ex)[:120]}'))
+                    continue
+                n_mod += 1
+                g, c, p = pyrun.triple(files)
+                j, r = journal_of(g, c, p)
+                want = [bridge.expand(a) for a in info['published_with']({target: [extra_ax]})]
+                ax = [t for k, t in j if k == 'axiom'] if j is not None else None
+                sm = SymMap()
+                if ax is None or len(ax) != len(want) or not all(sm.unify(w, d) for w, d in zip(want, ax)):
+                    viols.append((dict(desc, kind='late_axiom_not_published', node=target),
+                                  f'{desc} optimize={opt}: after a first serialisation an axiom was added to node {target}; the next serialisation publishes '
+                                  f'{[rm.show(t) for t in ax] if ax is not None else r[:2]}, declared {[rm.show(t) for t in want]}'))
+    return viols, n_mod
 
 
 def module_chunk(specs):
@@ -216,7 +244,7 @@ def main(argv=None) -> int:
     common.build_harness()
     from . import modgraph
     agg: dict = {}
-    specs = modgraph.family(6 if thorough else 4) + modgraph.twin_family()
+    specs = modgraph.family(6 if thorough else 4) + modgraph.twin_family() + [('nested', (k,), 'all', False) for k in range(4)]
     for out in par.pmap(module_chunk, par.chunks(specs, common.ncpu() * 4)):
         for k, v in out.items():
             if k == 'viol':
@@ -235,9 +263,9 @@ def main(argv=None) -> int:
         for sig, what in out['viol']:
             chk.violation(sig, sig, what)
     pyrun.cleanup()
-    chk.set('evaluations', agg.get('evals', 0) + agg.get('capacity_cases', 0))
-    chk.set('distinct_nontrivial', agg.get('modules', 0) // 2 + len(refused) + len(encoded))
-    chk.set('rule', 'every module spec of the grammar (shape x axiom tuple x claim mode x sharing), serialised with both settings, plus '
+    chk.set('evaluations', agg.get('modules', 0) + agg.get('capacity_cases', 0))
+    chk.set('distinct_nontrivial', agg.get('modules', 0) + len(refused) + len(encoded))
+    chk.set('rule', 'every module spec of the grammar (shape x axiom tuple x claim mode x sharing) x optimise setting (one evaluation = one set of files decoded and compared), chain/diamond modules also re-serialised after a late add_axiom on each node, plus '
                     'capacity cases; each spec is distinct by construction; all are non-trivial (a journal is decoded and compared)')
     chk.set('exhaustive', True)
     chk.set('capacity_refused', refused)
